@@ -327,15 +327,47 @@ def check(ctx, f, analysis, label, base, mode, opt):
             agg.hist("rewritten_not_analysable", type(e).__name__)
 
 
+def chained_bases(ctx, f, blist):
+    """Second-generation bases: pickles that already carry one injection (every rewritten pickle
+    ends in STOP, so the helpers must compose)."""
+    rng = asm.rng_for(ctx.seed, "c08chain")
+    out = []
+    n = {"quick": 60, "thorough": 1500}[ctx.tier]
+    tries = 0
+    while len(out) < n and tries < n * 5:
+        tries += 1
+        label, base = rng.choice(blist)
+        mode, opt = rng.choice(MODES)
+        if mode == "insert_fn" or len(base) > 3000:
+            continue
+        try:
+            p = f.Pickled.load(base)
+            inject(f, p, mode, opt)
+            data = p.dumps()
+        except Exception:
+            continue
+        vm = refvm.RefVM(data)
+        try:
+            vm.run()
+        except Exception:
+            continue
+        if vm.depth() != 0:
+            continue          # (only append_python(pop_result=False): the recorded stack-leftover finding)
+        if gate(data, rewritten=True):
+            out.append((f"chained[{mode}]-{label}", data))
+    return out
+
+
 def run_shard(ctx):
     import fickling  # noqa: F401
     import fickling.fickle as f
     import fickling.analysis as analysis
     i = 0
-    for label, base in bases(ctx):
-        if not gate(base):
-            ctx.agg.count("base_rejected_by_gate")
-            continue
+    blist = [(lab, b) for lab, b in bases(ctx) if gate(b)]
+    ctx.agg.count("bases", len(blist))
+    second = chained_bases(ctx, f, blist)
+    ctx.agg.count("chained_bases", len(second))
+    for label, base in blist + second:
         for mode, opt in MODES:
             i += 1
             if i % ctx.nshards != ctx.shard:
